@@ -113,7 +113,6 @@ def _s1a(program, res):
             if not (m.name.endswith("_to_near_sql") or m.name.startswith("_emit") or m.name.startswith("_natural_join")):
                 continue
             g = cfgmod.build(m.node)
-            d = depsmod.Deps(g, m.params(), named_locals={"subsql", "near_sql", "sql_left", "sql_right"})
             # local variables that hold an existing NearSQL (result of to_near_sql_implementation_ / *_to_near_sql)
             existing: Set[str] = set()
             for n in g.stmt_nodes(("stmt",)):
@@ -123,6 +122,7 @@ def _s1a(program, res):
                     for t in st.targets:
                         if isinstance(t, ast.Name):
                             existing.add(t.id)
+            d = depsmod.Deps(g, m.params(), named_locals=set(existing) | {"near_sql", "sql_left", "sql_right"})
             if not existing:
                 continue
             res.analysed(m)
@@ -244,7 +244,13 @@ def _s1c(program, res):
     f = program.method("sql_model", "SQLModel", "extend_to_near_sql", inherited=False)
     res.analysed(f)
     g = cfgmod.build(f.node)
-    d = depsmod.Deps(g, f.params(), named_locals={"subsql"})
+    # the sub-step: the local bound to <source>.to_near_sql_implementation_(...)
+    subs = [st.targets[0].id for st in ast.walk(f.node) if isinstance(st, ast.Assign) and len(st.targets) == 1 and isinstance(st.targets[0], ast.Name)
+            and isinstance(st.value, ast.Call) and isinstance(st.value.func, ast.Attribute) and st.value.func.attr == "to_near_sql_implementation_"]
+    if not subs:
+        raise AnalysisError("extend_to_near_sql: the sub-step (… = <source>.to_near_sql_implementation_(…)) was not found")
+    subsql = subs[0]
+    d = depsmod.Deps(g, f.params(), named_locals={subsql})
     node_p = [p for p in f.params() if p != "self"][0]
     # store declared_term_dependencies[ci] = X in the loop over computed ops
     stores = [n for n in g.stmt_nodes(("stmt",)) if isinstance(n.stmt, ast.Assign) and isinstance(n.stmt.targets[0], ast.Subscript)
@@ -265,15 +271,15 @@ def _s1c(program, res):
     # merge guard depends on all contention sets
     merged_ret = None
     for r in g.returns():
-        if isinstance(r.stmt.value, ast.Name) and r.stmt.value.id == "subsql":
+        if isinstance(r.stmt.value, ast.Name) and r.stmt.value.id == subsql:
             merged_ret = r
     if merged_ret is None:
-        raise AnalysisError("extend_to_near_sql: merged return (return subsql) not found")
+        raise AnalysisError("extend_to_near_sql: merged return (the mutated sub-step is returned) not found")
     roots = set()
     for (b, _l) in g.lexical_guards(merged_ret):
         roots |= d.cond_roots(b)
-    required = ["self.allow_extend_merges", "subsql.mergeable", "subsql.suffix", "subsql.declared_term_dependencies",
-                "subsql.terms", "call:expr_to_sql", f"{node_p}.ops", "call:get_column_names"]
+    required = ["self.allow_extend_merges", f"{subsql}.mergeable", f"{subsql}.suffix", f"{subsql}.declared_term_dependencies",
+                f"{subsql}.terms", "call:expr_to_sql", f"{node_p}.ops", "call:get_column_names"]
     miss = depsmod.missing_roots(roots, required)
     if miss:
         res.fail_at("C04-S1", f, f"merge-guard-lacks:{','.join(miss)}",
